@@ -153,6 +153,26 @@ Proof.
   rewrite mul_assoc. unfold mul. reflexivity.
 Qed.
 
+(* source level: normalisation (validation.go) followed by getMatrix *)
+Lemma css_normalise_spec tr g f :
+  meq (css_fun_matrix g (css_normalise tr f)) (css_src_matrix tr g f).
+Proof. destruct f; mring. Qed.
+
+Lemma product_map_meq {X} (f h : X -> T) l :
+  (forall x, meq (f x) (h x)) -> meq (product (map f l)) (product (map h l)).
+Proof.
+  intros H. induction l as [|x l IH]; cbn [map product]; [reflexivity|].
+  change prod with mult. rewrite (H x), IH. reflexivity.
+Qed.
+
+Theorem css_source_spec tr g fs :
+  meq (css_matrix g (map (css_normalise tr) fs)) (css_src_spec tr g fs).
+Proof.
+  rewrite css_matrix_spec. unfold css_spec, css_src_spec, conjugate.
+  change prod with mult. rewrite map_map.
+  rewrite (product_map_meq _ _ fs (css_normalise_spec tr g)). reflexivity.
+Qed.
+
 (* --- model = spec: SVG -------------------------------------------- *)
 (* The code turns skewX(a) into Skew(a, 0): the second tangent is tan 0, which
    must be 0 (Go: math.Tan(0) == 0 exactly).  Hypothesis forced by the proof. *)
